@@ -224,7 +224,7 @@ pub fn strategy(g: &GenCfg) -> BoxedStrategy<Case> {
             if let Some(c) = canc {
                 actors.push(c);
             }
-            Case { fam: "rwlock".into(), workers, pool, feat, cfg: vec![], actors, sched }
+            Case { fam: "rwlock".into(), workers, pool, feat, cfg: vec![], actors, sched, weak: 0 }
         })
         .boxed()
 }
